@@ -646,8 +646,8 @@ def build_single(z):
         if isinstance(e, AssertionError):
             raise
         out = (None, e)
-    if 4 ** z > 2000:
-        _BIG[key] = out
+    # never cached: every case gets its own region object, so that state a region may carry between lookups cannot leak
+    # from one case into another (a replay must see exactly what the case saw)
     return out
 
 
@@ -869,8 +869,7 @@ def build_california():
         raise
     except Exception as e:
         out = (None, e)
-    _BIG['california'] = out
-    return out
+    return out      # not cached (see build_single)
 
 
 def run_california(case, sink):
